@@ -8,6 +8,7 @@ pub mod c07;
 pub mod c08;
 pub mod c09;
 pub mod c11;
+pub mod c12;
 pub mod c14;
 pub mod c15;
 pub mod c16;
@@ -37,6 +38,7 @@ pub fn dispatch(prop: &str, p: &Params) -> Option<Report> {
             rep
         }
         "C11" => c11::run(p),
+        "C12" => c12::run(p),
         "C14" => c14::run(p),
         "C16" => c16::run(p),
         "C18" => c18::run(p),
